@@ -31,3 +31,59 @@ def weave_instances(tier, ob, prefix):
                               % (na, nb, pla, plb, pl, lmax),
                         desc="inductive merge step from an arbitrary valid state"))
     return out
+
+
+def valid_paths(la, lb):
+    """all Hirschberg paths (partner of a_i or -1) satisfying the contract of harness/vk_path.h"""
+    import itertools
+    out = []
+    for p in itertools.product([-1] + list(range(1, lb + 1)), repeat=la):
+        ok, prev, npaired, pend = True, 0, 0, False
+        for v in p:
+            if v == -1:
+                pend = True
+            else:
+                if v <= prev or (pend and v != prev + 1):
+                    ok = False
+                pend, prev, npaired = False, v, npaired + 1
+        if pend and prev != lb:
+            ok = False
+        if ok and npaired:
+            out.append(list(p))
+    return out
+
+
+def doalign_instances(tier, ob, prefix):
+    out = []
+    tup = [(1, 1, 2, 3, 0), (2, 1, 3, 2, 0), (1, 2, 2, 3, 1), (2, 2, 3, 2, 0)] if tier == "quick" else \
+          [(ga, gb, la, lb, last) for ga in (1, 2) for gb in (1, 2) for la in (1, 2, 3) for lb in (1, 2, 3) for last in (0, 1) if (ga == 1 or la >= 2) and (gb == 1 or lb >= 2)]
+    for ga, gb, la, lb, last in tup:
+      # problem size the DP is handed (do_align swaps so that the first operand is the shorter one / the profile)
+      if ga == 1 and gb > 1:
+          pla, plb = lb, la
+      elif ga > 1 and gb == 1:
+          pla, plb = la, lb
+      else:
+          pla, plb = (la, lb) if la < lb else (lb, la)
+      paths = valid_paths(pla, plb)
+      if tier == "quick":
+          paths = paths[::max(1, len(paths) // 2)][:2]
+      for pi, path in enumerate(paths):
+        d = {"VK_GA": ga, "VK_GB": gb, "VK_LENA": la, "VK_LENB": lb, "NOHAVE_AVX2": None, "VK_PLA": pla, "VK_PLB": plb,
+             "VK_PATH_INIT": "{0," + ",".join(map(str, path)) + "}"}
+        if last:
+            d["VK_LAST"] = None
+        out.append(Inst(ob=ob, name="%s_a%d_b%d_la%d_lb%d_%s_p%d" % (prefix, ga, gb, la, lb, "last" if last else "mid", pi), harness="c01_doalign.c", defs=d,
+                        srcs=["lib/src/aln_setup.c", "lib/src/weave_alignment.c", "lib/src/aln_mem.c", "lib/src/task.c"],
+                        models=["models/vin.c", "models/msg.c", "models/qsort.c"], native_srcs=["lib/src/tldevel.c"],
+                        unwind=66, unwind_pat=MK_MSA_UNWIND + [("update_n", r"while\(path\[c\] != 3\)", la + lb + 2), ("make_seq", r"while\(path\[c\] != 3\)", la + lb + 2),
+                                                               ("add_gap_info_to_path_n", r"while\(o_path\[", la + lb + 3), ("add_gap_info_to_path_n", r"for\(i = 2; i <= len_a", max(la, lb) + 2),
+                                                               ("add_gap_info_to_path_n", r"for \( a = 0", max(la, lb) + 2), ("update_gaps", r"for \(", la + lb + 3),
+                                                               ("make_profile_n", r"while\(i--\)", max(la, lb) + 2), ("set_gap_penalties_n", r"while\(i--\)", max(la, lb) + 3),
+                                                               ("init_alnmem", r"i  < g", la + lb + 4), ("mirror_path_n", r"for\(", la + lb + 4), ("aln_runner", r"i <= 4", 6)],
+                        nb=40, ni=1, nf=3, timeout=300, mem_gb=8,
+                        funcs=["do_align", "make_profile_n", "set_gap_penalties_n", "update_n", "add_gap_info_to_path_n", "mirror_path_n", "make_seq", "update_gaps", "init_alnmem"],
+                        cost=(la + lb) * (ga + gb) * 10,
+                        bound="node a: %d member(s) / length %d, node b: %d member(s) / length %d, %s task; DP answer = one enumerated valid path; gap vectors, residues and stale output-node state symbolic" % (ga, la, gb, lb, "last" if last else "inner"),
+                        desc="one merge through the real do_align with the DP stubbed"))
+    return out
